@@ -32,7 +32,6 @@ def main():
     prop = notes['property']
     patch = os.path.join(src, 'patch.diff')
     demo = os.path.join(src, 'demo.py')
-    assert sh(['git', '-C', REPO, 'status', '--porcelain']).stdout.strip() == '', '/repo is not clean'
     wt = tempfile.mkdtemp(prefix='cuv-wt-')
     os.rmdir(wt)
     assert sh(['git', '-C', REPO, 'worktree', 'add', '-q', '--detach', wt, 'HEAD']).returncode == 0
@@ -57,12 +56,11 @@ def main():
         if d0.returncode != 0:
             print(d0.stdout[-1500:])
         return 1
-    # run the target check with the patch applied to /repo, then undo
-    assert sh(['git', '-C', REPO, 'apply', patch]).returncode == 0
-    try:
-        out = sh([os.path.join(VERIF, 'check'), prop, '--tier', 'quick'], cwd=VERIF).stdout
-    finally:
-        sh(['git', '-C', REPO, 'checkout', '--', '.'])
+    # run the target check against a scratch copy of /repo with the patch applied (VERIF_REPO): /repo is not touched
+    sys.path.insert(0, os.path.dirname(os.path.abspath(__file__)))
+    from scratch_repo import patched_copy, check_env
+    with patched_copy(patch) as root:
+        out = sh([os.path.join(VERIF, 'check'), prop, '--tier', 'quick'], cwd=VERIF, env=check_env(root)).stdout
     viol = [l for l in out.splitlines() if l.startswith('VIOLATION')]
     summ = [l for l in out.splitlines() if l.startswith(prop + ' tier=')]
     dst = os.path.join(VERIF, 'seeded', name)
@@ -72,7 +70,7 @@ def main():
     meta = {'property': prop, 'summary': notes.get('summary'), 'needs': notes.get('needs'),
             'tests_pass': True, 'demo_fails_with_patch': True, 'demo_passes_without': True,
             'verified_by_lead': {'tests_with_patch': last, 'demo_exit_with_patch': d1.returncode, 'demo_exit_without': d0.returncode},
-            'ran': './check %s --tier quick with the patch applied' % prop,
+            'ran': './check %s --tier quick against a scratch copy of /repo with the patch applied (VERIF_REPO)' % prop,
             'caught_by_quick_check': bool(viol), 'check_summary': summ[0] if summ else '',
             'violation_lines': [' '.join(l.split()[:2]) for l in viol[:3]]}
     json.dump(meta, open(os.path.join(dst, 'meta.json'), 'w'), indent=1)
